@@ -34,6 +34,10 @@ type stScenario struct {
 	PartBufs    []int    `json:"part_bufs"`    // same for part readers after Finalize
 	KeepFileRd  bool     `json:"keep_file_rd"` // open a file reader before Remove, use it after
 	ReadersPost int      `json:"readers_post"` // number of independent file readers opened after Finalize
+	// Neighbour: sizes of the parts written to a second file of the same factory after the first
+	// one was finalized (files of several streams coexist in a muxer); the first file's readers
+	// must not notice
+	Neighbour []int `json:"neighbour,omitempty"`
 }
 
 func drawStorage(t *rapid.T) stScenario {
@@ -99,6 +103,9 @@ func drawStorage(t *rapid.T) stScenario {
 	sc.PartBufs = rapid.SliceOfN(bufGen, 1, 3).Draw(t, "partbufs")
 	sc.KeepFileRd = rapid.Bool().Draw(t, "keepfile")
 	sc.ReadersPost = rapid.IntRange(1, 2).Draw(t, "readers")
+	if rapid.Bool().Draw(t, "neighbour") {
+		sc.Neighbour = rapid.SliceOfN(rapid.IntRange(0, 260), 1, 6).Draw(t, "neighbourSizes")
+	}
 	return sc
 }
 
@@ -278,6 +285,43 @@ func runStorageOn(kind string, sc stScenario) (string, bool) {
 
 	f.Finalize()
 
+	// a second file of the same factory is written now
+	var g storage.File
+	var gParts []storage.Part
+	var gWant [][]byte
+	if len(sc.Neighbour) > 0 {
+		g, err = factory.NewFile("g.bin")
+		if err != nil {
+			return fmt.Sprintf("%s: NewFile(g.bin): %v", kind, err), false
+		}
+		for k, n := range sc.Neighbour {
+			pt := g.NewPart()
+			d := bytes.Repeat([]byte{byte(0xA0 + k)}, n)
+			if wn, err := pt.Writer().Write(d); err != nil || wn != n {
+				return fmt.Sprintf("%s: neighbour file part %d Write(%d) = %d, %v", kind, k, n, wn, err), false
+			}
+			gParts = append(gParts, pt)
+			gWant = append(gWant, d)
+		}
+	}
+	checkNeighbour := func(stage string) string {
+		for k, pt := range gParts {
+			r, err := pt.Reader()
+			if err != nil {
+				return fmt.Sprintf("%s: %s: neighbour file part %d Reader(): %v", kind, stage, k, err)
+			}
+			got, err := readAllWith(r, []int{50}, limit)
+			r.Close()
+			if err != nil || !bytes.Equal(got, gWant[k]) {
+				return fmt.Sprintf("%s: %s: neighbour file part %d returned %d bytes %x (err %v), written %d bytes of %#x", kind, stage, k, len(got), trunc(got), err, len(gWant[k]), 0xA0+k)
+			}
+		}
+		return ""
+	}
+	if v := checkNeighbour("after the first file was finalized"); v != "" {
+		return v, false
+	}
+
 	if got := f.Size(); got != uint64(total) {
 		return fmt.Sprintf("%s: Size() = %d after Finalize, parts total %d", kind, got, total), false
 	}
@@ -334,6 +378,16 @@ func runStorageOn(kind string, sc stScenario) (string, bool) {
 
 	f.Remove()
 
+	if v := checkNeighbour("after the first file was removed"); v != "" {
+		return v, false
+	}
+	if g != nil {
+		g.Finalize()
+		if v := checkNeighbour("after its own Finalize"); v != "" {
+			return v, false
+		}
+		g.Remove()
+	}
 	if kind == "disk" {
 		if _, err := os.Stat(filepath.Join(dir, fname)); !os.IsNotExist(err) {
 			return fmt.Sprintf("disk: file still present after Remove (stat err=%v)", err), false
@@ -409,6 +463,9 @@ func execStorage(sc stScenario) core.Outcome {
 	}
 	if nonEmpty < len(sc.Parts) {
 		o.Labels = append(o.Labels, "has-empty-part")
+	}
+	if len(sc.Neighbour) > 0 {
+		o.Labels = append(o.Labels, "neighbour-file")
 	}
 	for _, b := range sc.FileBufs {
 		if b == 0 {
